@@ -93,28 +93,28 @@ func specPacked6Char(b []byte, k int) uint8 {
 //@ props C20 C05 C07
 //@ assigns nothing
 //@ requires [str.c] 0 <= c && c <= 31
-//@ ensures [C20.latin1-accept] (result2 == nil) == ((c == 0 || len(b) >= 2) && len(b) >= c)
+//@ ensures [C20+C07.latin1-accept] (result2 == nil) == ((c == 0 || len(b) >= 2) && len(b) >= c)
 //@ ensures [C07.latin1-empty] c == 0 ==> result2 == nil && len(result0) == 0 && result1 == 0 // an ID string of length zero is legal in every encoding (43.15)
-//@ ensures [C20.latin1-consumed] result2 == nil ==> result1 == c && len(result0) == c
-//@ ensures [C20.latin1-bytes] result2 == nil ==> forall(qk, 0, c, result0[qk] == b[qk])
+//@ ensures [C20+C07.latin1-consumed] result2 == nil ==> result1 == c && len(result0) == c
+//@ ensures [C20+C07.latin1-bytes] result2 == nil ==> forall(qk, 0, c, result0[qk] == b[qk])
 
 //@ func decodeBCDPlus
 //@ props C20 C05 C07
 //@ assigns nothing
 //@ requires [str.c] 0 <= c && c <= 31
 //@ invariant 0 [C20.bcdplus-inv] 0 <= i && i <= c && len(runes) == c && forall(qk, 0, i, runes[qk] == rune(specBCDPlusChar(b[qk/2], qk)))
-//@ ensures [C20.bcdplus-accept] (result2 == nil) == (len(b) >= (c+1)/2)
-//@ ensures [C20.bcdplus-consumed] result2 == nil ==> result1 == (c+1)/2
-//@ ensures [C20.bcdplus-chars] result2 == nil ==> len(result0) == c && forall(qk, 0, c, result0[qk] == specBCDPlusChar(b[qk/2], qk))
+//@ ensures [C20+C07.bcdplus-accept] (result2 == nil) == (len(b) >= (c+1)/2)
+//@ ensures [C20+C07.bcdplus-consumed] result2 == nil ==> result1 == (c+1)/2
+//@ ensures [C20+C07.bcdplus-chars] result2 == nil ==> len(result0) == c && forall(qk, 0, c, result0[qk] == specBCDPlusChar(b[qk/2], qk))
 
 //@ func decodePacked6BitAscii
 //@ props C20 C05 C07
 //@ assigns nothing
 //@ requires [str.c] 0 <= c && c <= 31
 //@ invariant 0 [C20.packed-inv] 0 <= i && i <= c && len(runes) == c && forall(qk, 0, i, runes[qk] == rune(specPacked6Char(b, qk)))
-//@ ensures [C20.packed-accept] (result2 == nil) == (len(b) >= (c*6+7)/8)
-//@ ensures [C20.packed-consumed] result2 == nil ==> result1 == (c*6+7)/8
-//@ ensures [C20.packed-chars] result2 == nil ==> len(result0) == c && forall(qk, 0, c, result0[qk] == specPacked6Char(b, qk))
+//@ ensures [C20+C07.packed-accept] (result2 == nil) == (len(b) >= (c*6+7)/8)
+//@ ensures [C20+C07.packed-consumed] result2 == nil ==> result1 == (c*6+7)/8
+//@ ensures [C20+C07.packed-chars] result2 == nil ==> len(result0) == c && forall(qk, 0, c, result0[qk] == specPacked6Char(b, qk))
 
 // ---- analog_data_format.go: raw reading interpretation (IPMI v2.0 table 43-1, byte 21 [7:6])
 
